@@ -85,6 +85,12 @@ def run(prog: Program, rep: Report, tier: str):
         inherited_ok = any(cd[0] == "cmp" and cd[1] == "notin" and T.contains(cd[3], lambda s: T.is_call_to(s, "builtins.getattr") and len(s[2]) >= 2 and s[2][1] == ("const", "__slots__")) for cd in c[4])
         all_ancestors = any(T.contains(cd, lambda s: (s[0] == "call" and s[1][0] == "attr" and s[1][1] == CLS and s[1][2] == "mro") or s == ("attr", CLS, "__mro__")) for cd in c[4])
         ok_slots = ok_slots and from_fields and filt and inherited_ok and all_ancestors
+        # nothing reaches the tuple unfiltered: no other element next to the filtered comprehension, and the sequence
+        # it is built from is not extended afterwards
+        unfiltered = [x for x in (v[1] if v[0] in ("tuple", "list") else ()) if not (x[0] == "star" and x[1] == c) and x != c]
+        grown = [ev2 for pth in rets for ev2 in pth.events if ev2[0] == "eval" and ev2[1][0] == "call" and ev2[1][1][0] == "attr" and ev2[1][1][2] in ("append", "extend", "insert", "__iadd__") and ev2[1][1][1] == c]
+        if unfiltered or grown:
+            ok_slots = False
     rep.check(ok_slots, "R19.2", q, f.loc, "__slots__ are the dataclass field names not already slotted by a base", "__slots__ are not `fields(cls)` names minus the union of the __slots__ of *every* ancestor (cls.mro()): a slot re-declared from a grandparent is duplicated, or type() raises", detail="slots")
     # names come from f.name of dataclasses.fields(cls)
     fn = None
